@@ -144,6 +144,48 @@ WEq(T, a, b, defs) ==
               WEq(FieldType(defs[T.c], a.kv[i][1].s), a.kv[i][2], b.kv[i][2], defs)
     [] OTHER -> FALSE
 
+\* --- reference marshalling: "w is the wire form of the valid value v under T" ----------------------
+\* (implementation-shaped: the listed properties do not fix the wire format, so a disagreement is reported as
+\* drift, not as a violation; timedelta text is judged by spec/Scalars.tla and left open here)
+Builtin(k) == IF k = "none" THEN "NoneType" ELSE k
+SamePrim(v, w) == w.k = v.k /\ w.cls = Builtin(v.k) /\ (v.k = "none" \/ w.s = v.s)
+IsStr(w, s) == w.k = "str" /\ w.cls = "str" /\ w.s = s
+NonClassFields(d) == SelectSeq(d.fields, LAMBDA f : f[2].k # "classvar")
+RECURSIVE IsWireOf(_, _, _, _)
+IsWireOf(T, v, w, defs) ==
+  CASE T.k \in Wrappers -> IsWireOf(T.a, v, w, defs)
+    [] T.k = "prim" ->
+         (CASE T.n \in {"int", "bool", "float", "str", "NoneType"} -> SamePrim(v, w)
+            [] T.n \in {"Decimal", "Fraction", "UUID", "PurePosixPath", "Path", "Pattern", "date"} -> IsStr(w, v.s)
+            [] T.n \in {"datetime", "time"} -> IsStr(w, v.s \o v.off)
+            [] T.n = "timedelta" -> w.k = "str" /\ w.cls = "str"
+            [] OTHER -> TRUE)
+    [] T.k = "enum" -> SamePrim(v.val, w)
+    [] T.k = "lit" -> SamePrim(v, w)
+    [] T.k = "coll" ->
+         w.k = "list" /\ w.cls = "list" /\ Len(w.xs) = Len(v.xs) /\
+         (IF T.c \in {"set", "frozenset"}
+          THEN (\A i \in 1..Len(v.xs) : \E j \in 1..Len(w.xs) : IsWireOf(T.a, v.xs[i], w.xs[j], defs))
+          ELSE \A i \in 1..Len(v.xs) : IsWireOf(T.a, v.xs[i], w.xs[i], defs))
+    [] T.k = "map" ->
+         w.k = "dict" /\ w.cls = "dict" /\ Len(w.kv) = Len(v.kv) /\
+         \A i \in 1..Len(v.kv) : IsWireOf(T.ka, v.kv[i][1], w.kv[i][1], defs) /\ IsWireOf(T.va, v.kv[i][2], w.kv[i][2], defs)
+    [] T.k = "tup" ->
+         w.k = "list" /\ w.cls = "list" /\ Len(w.xs) = Len(T.xs) /\ Len(v.xs) = Len(T.xs) /\
+         \A i \in 1..Len(T.xs) : IsWireOf(T.xs[i], v.xs[i], w.xs[i], defs)
+    [] T.k = "union" ->
+         \E m \in 1..Len(T.xs) : Conf(T.xs[m], v, defs, "", TRUE) = "" /\ IsWireOf(T.xs[m], v, w, defs)
+    [] T.k = "cls" ->
+         LET d == defs[T.c] IN
+         IF v.k = "dict" THEN        \* TypedDict: the keys that are present, in their order
+            w.k = "dict" /\ w.cls = "dict" /\ Len(w.kv) = Len(v.kv) /\
+            \A i \in 1..Len(v.kv) : SamePrim(v.kv[i][1], w.kv[i][1]) /\ v.kv[i][1].k = "str" /\
+                 IsWireOf(FieldType(d, v.kv[i][1].s), v.kv[i][2], w.kv[i][2], defs)
+         ELSE LET fs == NonClassFields(d) IN
+            w.k = "dict" /\ w.cls = "dict" /\ Len(w.kv) = Len(fs) /\
+            \A i \in 1..Len(fs) : IsStr(w.kv[i][1], fs[i][1]) /\ IsWireOf(fs[i][2], FieldVal(v, fs[i][1]), w.kv[i][2], defs)
+    [] OTHER -> TRUE
+
 \* --- type-level helpers ---------------------------------------------------------------------------
 RECURSIVE Strip(_)
 Strip(T) ==
